@@ -756,11 +756,8 @@ func ruleBC3(c *Ctx) {
 		writes, okWrite := 0, true
 		for _, lit := range funcLits(ph.Body) {
 			ast.Inspect(lit.Body, func(x ast.Node) bool {
-				ce, ok := x.(*ast.CallExpr)
-				if !ok || len(ce.Args) == 0 {
-					return true
-				}
-				sl, ok := unparen(ce.Args[0]).(*ast.SliceExpr)
+				// every sub-slice of the code taken inside the closure (as a call argument, or bound to a local first)
+				sl, ok := x.(*ast.SliceExpr)
 				if !ok {
 					return true
 				}
